@@ -16,7 +16,7 @@ def impl_only(rng, tier):
     from common import VERIF
     sys.path.insert(0, os.path.join(VERIF, "gen"))
     import special
-    return lazy_backend_scripts(rng, tier) + special.marker_scripts(rng, 40 if tier == "quick" else 1500)
+    return lazy_backend_scripts(rng, tier) + lazy_backend_scripts(rng, tier) + lazy_backend_scripts(rng, tier) + special.marker_scripts(rng, 40 if tier == "quick" else 1500)
 
 
 def run(tier, seed, replay):
